@@ -241,6 +241,17 @@ def run_replay(args, timeout=1200):
     try:
         j = json.loads(o)
     except Exception:
+        if rc < 0 and "--trace" not in args:
+            # the real crate killed the process (abort: non-unwinding panic / unsafe-precondition check / UB trap).
+            # Re-run with a trace file to identify the case; this is a crash of the real code on a concrete input.
+            tf = os.path.join(BUILD, "replay-trace-%d.txt" % os.getpid())
+            rc2, o2, e2, w2 = sh([b] + args + ["--trace", tf], timeout=timeout)
+            case = open(tf).read() if os.path.exists(tf) else "?"
+            msg = (e2 or e).strip().splitlines()[-1:] or ["process aborted"]
+            return {"name": args[0], "bound": "aborted before completion", "evaluations": 0, "distinct_nontrivial": 0, "samples": [],
+                    "failures": [{"case": case, "props": "", "what": "the real crate aborted the process on this input (signal %d): %s" % (-rc, msg[0][:200]),
+                                  "detail": {"stderr": (e2 or e)[-600:]}}],
+                    "wall_s": w + w2, "cmd": "replay " + " ".join(args), "aborted": True}
         raise Inconclusive("tool-error", "replay %s: rc=%d %s" % (" ".join(args), rc, (e or o)[-1500:]))
     j["wall_s"] = w
     j["cmd"] = "replay " + " ".join(args)
@@ -383,12 +394,19 @@ def decide(pid, tier, seed, t0):
                 for s in (1, 2):
                     jobs.append(("seed", (u, m, s), ex.submit(run_unit, u, m, False, s + seed)))
         results = []
+        unit_problems = []
         for kind, key, fut in jobs:
-            results.append((kind, key, fut.result()))
+            try:
+                results.append((kind, key, fut.result()))
+            except Inconclusive as ex:
+                # the deductive side cannot decide this unit on this tree (lost anchor, unsupported construct, ...):
+                # never an alarm by itself; the bounded enumerations on the real crate still run and may find a failing input
+                if kind == "unit":
+                    unit_problems.append("%s_%s: %s: %s" % (key[0], key[1], ex.reason, ex.detail[-600:]))
 
     violations = []   # dicts with id, rendered, ...
     known_hits = []
-    inconclusive = []
+    inconclusive = list(unit_problems)
     obligations = 0
     discharged = 0
     fn_under_contract = []
@@ -404,7 +422,9 @@ def decide(pid, tier, seed, t0):
         crate = os.path.basename(r["gen"])[:-3]
         extracted = r["map"]["functions"]
         if r["tool_errors"]:
-            raise Inconclusive("unsupported-construct", "%s: %s" % (crate, r["tool_errors"][0]["rendered"] or r["tool_errors"][0]["message"]))
+            if kind == "unit":
+                inconclusive.append("unsupported-construct in %s: %s" % (crate, (r["tool_errors"][0]["rendered"] or r["tool_errors"][0]["message"])[-600:]))
+            continue
         if kind == "vac":
             # every extracted function must be REJECTED when `assert(false)` is placed at its entry
             for f in extracted:
@@ -420,7 +440,10 @@ def decide(pid, tier, seed, t0):
         smt_ms += r["smt_ms"]
         if kind == "seed":
             # brittleness probe: same obligations under another solver seed
-            base = [x for k2, key2, x in results if k2 == "unit" and key2 == key[:2]][0]
+            bl_ = [x for k2, key2, x in results if k2 == "unit" and key2 == key[:2]]
+            if not bl_:
+                continue
+            base = bl_[0]
             if {f["id"] for f in r["fails"]} != {f["id"] for f in base["fails"]} or bool(r["rlimits"]) != bool(base["rlimits"]):
                 inconclusive.append("solver-seed instability in %s seed %s" % (crate, key[2]))
             continue
@@ -515,6 +538,11 @@ def decide(pid, tier, seed, t0):
     for e in P.get("enum", []):
         args = [e["name"], "--tier", tier, "--seed", str(seed)] + e.get("args", [])
         r = run_replay(args, timeout=e.get("timeout", 1500))
+        if r.get("aborted") and e.get("abort_props") is not None and pid not in e["abort_props"]:
+            # a crash of the real crate inside an enumeration that serves this property only as a side check:
+            # reported by the properties the enumeration primarily serves, undecided here
+            inconclusive.append("enum:%s aborted on %s (decided by the checks of %s)" % (e["name"], r["failures"][0]["case"][:200], ",".join(e["abort_props"])))
+            r["failures"] = []
         enum_evals += r.get("evaluations", 0)
         enum_distinct += r.get("distinct_nontrivial", 0)
         enum_samples += r.get("samples", [])[:3]
@@ -598,7 +626,7 @@ def decide(pid, tier, seed, t0):
         print("VIOLATION property=%s replay=%s%s" % (pid, path, " no-failing-input-found" if nowit else ""))
         return 1
     if inconclusive:
-        print("INCONCLUSIVE property=%s reason=%s" % (pid, inconclusive[0][:300]))
+        print("INCONCLUSIVE property=%s reason=%s" % (pid, inconclusive[0][:600].replace("\n", " | ")))
         return 2
     print("OK property=%s level=%s obligations=%d discharged=%d bounded_checks=%d wall=%.1fs" % (pid, level, obligations, discharged, len(bounded), wall))
     return 0
